@@ -30,7 +30,7 @@ def T(tier, quick, thorough):
 def load_checks():
     import importlib, glob
     sys.path.insert(0, VERIF)
-    for p in sorted(glob.glob(os.path.join(VERIF, "checks", "C*.py"))):
+    for p in sorted(glob.glob(os.path.join(VERIF, "checks", "C[0-9][0-9].py"))):
         mod = importlib.import_module("checks." + os.path.basename(p)[:-3])
         CHECKS[mod.ID] = mod.run
 
